@@ -360,7 +360,7 @@ def _run_form(name, spec, res):
                         KU, RU = unify(ctx, kr.A, Rf)
                         kp = split_parts(KU)
                         rp = split_parts(RU)
-                        j = next((i for i, (_, p) in enumerate(kp) if p.t), None)
+                        j = max((i for i, (_, p) in enumerate(kp) if p.t), key=lambda i: max(abs(float(c)) for c in kp[i][1].t.values()), default=None)
                         if j is not None and len(rp) == len(kp):
                             mono, cf = max(kp[j][1].t.items(), key=lambda kv: abs(kv[1]) * eqcheck.mono_bound(ctx, kv[0]))
                             pert = Poly({mono: cf * Fraction(1, 1000)}, ctx)
